@@ -115,40 +115,59 @@ def record(rep, results, expect_covers=True):
 
 
 def playback(harness, timeout_s=900, crate='kani'):
-    """Re-run a failed harness with concrete playback in a scratch copy of the harness crate and execute the
-    generated unit test natively (dev and release). -> (reproduced: bool|None, detail)"""
-    import tempfile
+    """Re-run a failed harness with concrete playback in a scratch copy of the harness crate and execute the generated unit
+    tests natively (dev and release). -> (reproduced: bool|None, detail).
+    The tests are taken from --concrete-playback=print (in-place insertion breaks for harnesses defined through a macro), only
+    those generated for a failed check (not for cover statements) are kept, and they are appended as a child module of the module
+    that defines the harness."""
     scratch = os.path.join(BUILD, 'playback-' + harness)
     shutil.rmtree(scratch, ignore_errors=True)
     shutil.copytree(kdir(crate), scratch, ignore=shutil.ignore_patterns('target'))
-    tdir = os.path.join(scratch, 'target')
-    cmd = ['cargo', 'kani', '--harness', harness, '-Z', 'concrete-playback', '--concrete-playback=inplace',
-           '--output-format', 'terse']
+    cmd = ['cargo', 'kani', '--harness', harness, '-Z', 'concrete-playback', '--concrete-playback=print', '--output-format', 'terse']
     try:
         p = subprocess.run(cmd, cwd=scratch, env=env_offline(), capture_output=True, text=True, timeout=timeout_s)
     except subprocess.TimeoutExpired:
         return None, 'concrete playback generation timed out'
-    src = ''.join(open(os.path.join(d, f)).read() for d, _, fs in os.walk(os.path.join(scratch, 'src')) for f in fs)
-    tests = re.findall(r'fn (kani_concrete_playback_\w+)', src)
+    blocks = re.findall(r"```\n(.*?)```", p.stdout, re.S)
+    tests = []
+    for blk in blocks:
+        m = re.search(r'Check for `(\w+)`', blk)
+        n = re.search(r'fn (kani_concrete_playback_\w+)', blk)
+        if n and (m is None or m.group(1) != 'cover'):
+            tests.append((n.group(1), blk))
     if not tests:
-        return None, 'no concrete playback test generated: ' + p.stdout[-400:]
+        return None, 'no concrete playback test generated for a failed check: ' + p.stdout[-400:]
+    # the module file that defines (or instantiates through a macro) the harness
+    srcdir = os.path.join(scratch, 'src')
+    home = None
+    for f in sorted(os.listdir(srcdir)):
+        if f.endswith('.rs') and f not in ('lib.rs',) and re.search(r'\b' + re.escape(harness) + r'\b', open(os.path.join(srcdir, f)).read()):
+            home = os.path.join(srcdir, f)
+            break
+    if home is None:
+        return None, 'harness source file not found'
+    with open(home, 'a') as f:
+        f.write('\n#[cfg(test)]\nmod verif_playback {\n    use super::*;\n' + '\n'.join(blk for _, blk in tests) + '\n}\n')
     detail = []
     repro = True
     for prof in ([], ['--release']):
-        try:
-            q = subprocess.run(['cargo', 'kani', 'playback', '-Z', 'concrete-playback'] + prof + ['--', tests[0]],
-                               cwd=scratch, env=env_offline(), capture_output=True, text=True, timeout=timeout_s)
-        except subprocess.TimeoutExpired:
-            return None, 'playback run timed out'
-        ok = ('test result: FAILED' in q.stdout) or ('panicked at' in q.stdout + q.stderr)
-        detail.append(('release' if prof else 'dev', 'reproduced' if ok else 'NOT reproduced'))
+        any_fail = False
+        for tname, _ in tests[:3]:
+            try:
+                q = subprocess.run(['cargo', 'kani', 'playback', '-Z', 'concrete-playback'] + prof + ['--', tname],
+                                   cwd=scratch, env=env_offline(), capture_output=True, text=True, timeout=timeout_s)
+            except subprocess.TimeoutExpired:
+                return None, 'playback run timed out'
+            if 'could not compile' in q.stderr:
+                return None, 'playback tests do not compile: ' + q.stderr[-400:]
+            any_fail = any_fail or ('test result: FAILED' in q.stdout) or ('panicked at' in q.stdout + q.stderr)
+        detail.append(('release' if prof else 'dev', 'reproduced' if any_fail else 'NOT reproduced'))
         # dev models what Kani analysed; release may legitimately differ on overflow checks
-        if not prof and not ok:
+        if not prof and not any_fail:
             repro = False
-    m = re.search(r'fn ' + tests[0] + r'\(\) \{(.*?)\n\s*\}\n', src, re.S)
-    witness = m.group(1).strip()[:1500] if m else ''
+    witness = tests[0][1].strip()[:1500]
     shutil.rmtree(scratch, ignore_errors=True)
-    return repro, dict(test=tests[0], profiles=detail, witness=witness)
+    return repro, dict(test=tests[0][0], profiles=detail, witness=witness)
 
 
 def handle_failures(rep, failed, pid, crate='kani'):
